@@ -10,7 +10,7 @@ from ..prv import Pvt, PrvError
 
 ID = "C17"
 LEVEL = "exploration"
-RUNS = {"quick": 5000, "thorough": 15000}
+RUNS = {"quick": 8000, "thorough": 15000}
 RULE = ("seeded programs of 1-3 threads define mark types (single and stack) and labels (overlapping, agreeing) and set/push/pop values through "
         "the REAL mark API under the simulated scheduler and clock while changing thread state and affinity (OHp/OHr/OHc/OHw/OAs); the streams "
         "libovni leaves are replayed through the reference model in clock order and compared with ovniemu's thread and CPU timelines of type "
@@ -31,7 +31,7 @@ def gen(rng, tier, idx):
     knobs["clock_mode"] = 1
     variant = "small" if r.chance(70) else "real"
     cap = rt.CAP_SMALL if variant == "small" else rt.CAP_REAL
-    g = rtgen.Prog(r, nth, cap, knobs)
+    g = rtgen.Prog(r, nth, cap, knobs, stale_pct=6)
     ncpu = r.randint(1, 3)
     cpus = [(i, 3 * i + 1) for i in range(ncpu)]
     p = g.plan
